@@ -39,37 +39,38 @@ VARIABLES objs,     \* scene, fixed at Init: sequence (list order) of [ord, cove
           pc,       \* "tiers" | "paint" | "done"
           tiers,    \* chosen component counts
           k,        \* objects painted so far
-          owner     \* cell -> list index of the object whose material the cell holds (0 = nothing yet)
-vars == << objs, pc, tiers, k, owner >>
+          owner,    \* cell -> list index of the object whose material the cell holds (0 = nothing yet)
+          Order     \* the assembly order sorted(...) computed once per scene (fixed at Init)
+vars == << objs, pc, tiers, k, owner, Order >>
 
 MatsOf(os) == LET used == UNION { {os[i].mat} \cup os[i].extra : i \in DOMAIN os } IN [ m \in used |-> Catalogue[m] ]
-Order == PaintOrder(objs, Variant)
-
 Obj(o, c, m, x) == [ ord |-> o, cover |-> c, mat |-> m, extra |-> x ]
 \* all geometries and placement orders with fixed distinct materials ...
 GeoScenes  == { << Obj(-1000, Cells, 1, {}), Obj(o[1], c[1], 2, {}), Obj(o[2], c[2], 3, {}), Obj(o[3], c[3], 5, {}) >> :
                   o \in [1..3 -> 0..2], c \in [1..3 -> Covers] }
 \* ... and all material assignments (plus one unused dictionary entry) with a fixed overlapping geometry
+VolMats == IF L >= 4 THEN 1..NMat ELSE {1, 5}      \* quick tier: volume material vacuum or magnetic only
 KindScenes == { << Obj(-1000, Cells, m[1], {}), Obj(1, {1, 2}, m[2], {}), Obj(0, {2, 3}, m[3], {x}), Obj(1, {2}, m[4], {}) >> :
-                  m \in [1..4 -> 1..NMat], x \in {1, 4, 7} }
+                  m \in { f \in [1..4 -> 1..NMat] : f[1] \in VolMats }, x \in {1, 4, 7} }
 
 Init == /\ objs \in GeoScenes \cup KindScenes
         /\ pc = "tiers" /\ k = 0
         /\ tiers = [ eps |-> 0, mu |-> 0, se |-> 0, sm |-> 0 ]
         /\ owner = [ c \in Cells |-> 0 ]
+        /\ Order = PaintOrder(objs, Variant)
 
 SelectTiers ==
     /\ pc = "tiers"
     /\ tiers' = ExpTiers(MatsOf(objs))
     /\ pc' = "paint"
-    /\ UNCHANGED << objs, k, owner >>
+    /\ UNCHANGED << objs, k, owner, Order >>
 
 Paint ==
     /\ pc = "paint" /\ k < NObj
     /\ LET i == Order[k + 1] IN owner' = [ c \in Cells |-> IF c \in objs[i].cover THEN i ELSE owner[c] ]
     /\ k' = k + 1
     /\ pc' = IF k + 1 = NObj THEN "done" ELSE "paint"
-    /\ UNCHANGED << objs, tiers >>
+    /\ UNCHANGED << objs, tiers, Order >>
 
 Next == SelectTiers \/ Paint
 Spec == Init /\ [][Next]_vars
